@@ -1962,7 +1962,7 @@ static inline void gp_arr_map11(
     const size_t elem_size, void*_parr, GPArrIn src, void(*const f)(void*,const void*))
 {
     GPArray(void)* parr = _parr;
-    parr = gp_arr_map(elem_size, *parr, src.data, src.length, f);
+    *parr = gp_arr_map(elem_size, *parr, src.data, src.length, f);
 }
 GP_NONNULL_ARGS_AND_RETURN
 static inline GPArray(void) gp_arr_map_new11(
@@ -1987,7 +1987,7 @@ static inline void gp_arr_filter11(
     const size_t elem_size, void*_parr, GPArrIn src, bool(*const f)(const void*))
 {
     GPArray(void)* parr = _parr;
-    parr = gp_arr_filter(elem_size, *parr, src.data, src.length, f);
+    *parr = gp_arr_filter(elem_size, *parr, src.data, src.length, f);
 }
 GP_NONNULL_ARGS_AND_RETURN
 static inline GPArray(void) gp_arr_filter_new11(
